@@ -72,6 +72,30 @@ fn solve<T: Sc>(t: &mut Toks, cx: &mut Ctx) -> String {
                         let mut rn = 0.0f64;
                         for i in 0..n { let mut s = T::zero(); for j in 0..n { s += rows[i][j] * x[j]; } rn = rn.max((s - b[i]).mag64()); }
                         cx.check(rn <= 1e-11 * (an * xn + bn) + 1e-300, &format!("{}: backward error {:e} too large", name, rn / (an * xn + bn + 1e-300)));
+                        // the bound of theorem C01F.solveLU_backward, evaluated on this run (standard model, u = 2^-53; for
+                        // Complex<f64> the operations are composite: 8u): |b - A x|_i <= (g_n + g_3n) (P^T |L||U| |x|)_i, plus the
+                        // rounding of this residual evaluation itself, g_(n+2) (|A||x| + |b|)_i
+                        let mut lu = a.clone();
+                        if let Ok((_, perm)) = guarded(|| lu.lu_decomp_in_place()) {
+                            let u = f64::EPSILON / 2.0 * if T::TAG == "c" { 8.0 } else { 1.0 };
+                            let g = |k: usize| 1.01 * (k as f64) * u;
+                            let xa: Vec<f64> = x.vec.iter().map(|v| v.mag64()).collect();
+                            // w = |L||U||x|
+                            let ux: Vec<f64> = (0..n).map(|r| (r..n).map(|c| lu[(r, c)].mag64() * xa[c]).sum::<f64>()).collect();
+                            let w: Vec<f64> = (0..n).map(|r| (0..r).map(|k| lu[(r, k)].mag64() * ux[k]).sum::<f64>() + ux[r]).collect();
+                            let fac = if name == "solve_lu" { 1.0 } else { 2.0 };
+                            let mut worst = 0.0f64; let mut ok = true;
+                            for i in 0..n {
+                                let row_of = (0..n).find(|r| perm[(*r, i)].mag64() == 1.0).unwrap_or(i);
+                                let mut s = T::zero(); let mut absum = b[i].mag64();
+                                for j in 0..n { s += rows[i][j] * x[j]; absum += rows[i][j].mag64() * xa[j]; }
+                                let res = (s - b[i]).mag64();
+                                let bound = fac * (g(n) + g(3 * n)) * w[row_of] + g(n + 2) * absum;
+                                if bound.is_finite() && !(res <= bound) { ok = false; worst = worst.max(res / bound.max(1e-300)); }
+                            }
+                            cx.meta("lu_backward_bound_checked", 1);
+                            cx.check(ok, &format!("{}: componentwise residual exceeds the LU backward-error bound (g_n + g_3n) P^T|L||U||x| of theorem solveLU_backward by a factor {:e}", name, worst));
+                        }
                     }
                 }
             }
